@@ -23,7 +23,10 @@ def sortNat (l : List Nat) : List Nat := l.mergeSort (· ≤ ·)
 /-- verdict on one step: `none` = fine -/
 def judge (s1 : St) (o : Out) (tok : String) : Option String :=
   match tok.splitOn "/" with
-  | [rep, disp] =>
+  | [rep, disp, cb] =>
+    -- the call descriptors the rings hold (GET_VRING_BASE drops the ring's kick and call descriptors)
+    let expCb := String.ofList ((List.range s1.n).map fun r => if (s1.ring r).call.isSome then '1' else '0')
+    if cb != expCb && cb != "?" then some s!"call-descriptors-{cb}-expected-{expCb}" else
     let repOk := match o.reply with
       | .ok => rep == "ok"
       | .base _ v => rep == s!"b{hx v}"
